@@ -14,8 +14,9 @@
  *             one instance; the second exchange must equal the exchange on a
  *             fresh instance (memory accesses and reply octets).
  *   family E: reads from just above what fits behind the request's header up to
- *             sizes whose octet count wraps in 32 bits: beyond the block's
- *             capacity a transmit-overflow response and no memory access.
+ *             sizes whose octet count wraps in 32 bits: beyond what the block
+ *             holds behind its descriptor a transmit-overflow response and no
+ *             memory access.
  *   family O: option bits -- every combination of the header-checksum and
  *             payload-checksum bits on either transport (the parser goes by
  *             the bits, not by the transport): a receiver may refuse the
@@ -23,16 +24,23 @@
  *             one that accepts them has received a request and owes the full
  *             exchange, with the capacity boundary where the *received* header
  *             puts it.
- *   family F: frames that fail reception by an independent reading of the
+ *   family F: frames that are invalid by an independent reading of the
  *             document (payload size against block sizes straddling 2^7, 2^8,
  *             2^15, 2^16, 2^31, 2^32; wrong checksums; bad header encodings):
- *             never a memory access.
+ *             whenever the library itself reports that reception failed
+ *             (negative return, error.id, no frame) never a memory access.
+ *             (Whether such a frame may be taken as valid is C07's sentence.)
  *   family S: sessions of the documented serving loop (regp_loop.h): every
  *             sequence of 2..3 (thorough: 4) receptions out of good requests,
  *             non-requests, corrupted frames and channel-level failures on one
  *             instance, with the caller's RPMaybeFrame cleared per round /
  *             reused / reused with indeterminate first contents, on a heap and
- *             on a pool allocator.
+ *             on a pool allocator.  After a channel failure that regp_recv
+ *             reported (negative return) an instance may refuse reception
+ *             (regp_recv < 0 without taking an octet from the source) until a
+ *             channel is installed again, as in family G: then no access and no
+ *             acknowledgement, and the frame is offered once more after
+ *             regp_use_channel.
  *   family G: the reply cannot be sent (sink failure at every octet offset of
  *             every reply kind): still exactly one access; the next request,
  *             if the instance still receives it, is served as on a fresh
@@ -44,17 +52,24 @@
  * The capacity of the 160-octet block (how much of it the receiver keeps for
  * itself is the library's business) is learned from the library's own answers
  * (regp_ref.h: drv_learn_capacity): the length of the longest well-formed
- * request it receives into such a block.  160 - sizeof(RPFrame) only places the
- * enumerated windows.  A read of more octets than the capacity cannot fit under
- * any reading: transmit-overflow response, no access.  A read whose data fits
- * the capacity but not together with a full 16-octet response header ("the
- * band") may be served or answered with a transmit-overflow response without
- * access (statement C09 prescribes the latter for "a read whose answer cannot
- * fit"; whether the data goes behind the request's header, over it, or behind
- * a response header is the library's business).  A write request whose frame
- * reaches into the top 16 octets of the capacity may likewise be received and
- * executed, or refused by reception (then: no access; its reply is C07's/C09's
- * subject).
+ * request it receives into such a block.  160 - sizeof(RPFrame) places the
+ * enumerated windows and is the physical bound: a read of more octets than the
+ * block has behind the frame descriptor has no placement under any reading:
+ * transmit-overflow response, no access.  What the receiver takes into a block
+ * at reception may be less than what a read can place there (room kept free at
+ * reception, write payloads capped), so from "data + a full 16-octet response
+ * header exceed the learned capacity" up to that bound ("the band") a read may
+ * be served -- then with the full oracle; the exact-size blocks under ASan see
+ * a placement that leaves the block -- or answered with a transmit-overflow
+ * response without access (statement C09 prescribes the latter for "a read
+ * whose answer cannot fit"; whether the data goes behind the request's header,
+ * over it, or behind a response header is the library's business).  A write
+ * request whose frame reaches into the top 16 octets of the capacity may
+ * likewise be received and executed, or refused by reception (then: no access;
+ * its reply is C07's/C09's subject).
+ * A request whose word size does not match the attached memory may be answered
+ * by regp_process or already by regp_recv (which then flags the frame in
+ * error.id): either way exactly one word-size error response, no access.
  * The allocator ledger (how many blocks, released when) is statement C09's
  * sentence; here only a release of something that is no live block (double or
  * foreign release) is reported.
@@ -222,6 +237,16 @@ rawcap_learned(void)
     return cap;
 }
 
+/* What a block can hold at all behind the frame descriptor the receiver keeps
+ * in it (the learned capacity, should the library show a larger one): a read of
+ * more octets has no placement under any reading. */
+static size_t
+physical_room(void)
+{
+    const size_t room = BLOCKSIZE - sizeof(RPFrame), cap = rawcap_learned();
+    return cap > room ? cap : room;
+}
+
 /* value admitted as "the buffer size" in overflow responses: how much of the
  * block counts as the buffer is the library's business (the whole block, the
  * block minus its descriptor, that minus a header, ...): anything from the
@@ -289,9 +314,17 @@ check_request(const struct req *q)
                 FAIL_BAD_RELEASE(&D);
             goto out;
         }
-        mc_fail("C06/valid-frame-received", "reception of a valid frame of %zu octets (capacity %zu): rc=%d error.id=%d frame=%d", req_hdr(q) + plen, rawcap, rrc, errid,
-                hadframe);
-        goto out;
+        /* a request whose word size does not match the attached memory: the statement
+         * prescribes the answer (word-size error, no access), not which of the two calls
+         * gives it.  A receiver that answers in regp_recv and flags the frame in error.id
+         * is judged by the mismatch oracle below (exactly one EWORDSIZE reply echoing
+         * sequence and address, no access).  Not admitted: no frame handed over, or a
+         * negative return without any reply. */
+        if (!(mismatch && errid != 0 && hadframe && !(rrc < 0 && D.outlen == 0))) {
+            mc_fail("C06/valid-frame-received", "reception of a valid frame of %zu octets (capacity %zu): rc=%d error.id=%d frame=%d", req_hdr(q) + plen, rawcap, rrc, errid,
+                    hadframe);
+            goto out;
+        }
     }
     /* the return value of regp_process is not fixed by the statement; only an
      * acknowledged request must not be reported as a failure (below) */
@@ -335,14 +368,18 @@ check_request(const struct req *q)
     }
     if (!q->write) {
         const uint64_t octets = (uint64_t)q->bsize * (q->mem16 ? 2u : 1u);
-        const bool cannot_fit = octets > rawcap;                    /* more than the receiver takes into a block at all */
-        const bool band = !cannot_fit && octets + 16 > rawcap;      /* not together with a full response header */
+        /* no placement exists: more octets than the block has behind its descriptor
+         * (what the receiver takes into a block at reception -- rawcap -- may be less
+         * than what a read can place there: room kept free, write payloads capped) */
+        const size_t physical = physical_room();
+        const bool cannot_fit = octets > physical;
+        const bool band = !cannot_fit && octets + 16 > rawcap;      /* not surely together with a full response header */
         if (cannot_fit || (band && D.ncalls == 0)) {
             outcome = cannot_fit ? "read-too-large-refused" : "read-band-refused";
             const uint32_t val = r.plen == 4 ? ((uint32_t)r.payload[0] << 24 | (uint32_t)r.payload[1] << 16 | (uint32_t)r.payload[2] << 8 | r.payload[3]) : 0;
             if (D.ncalls != 0)
-                mc_fail("C06/too-large-read-no-access", "a read of %llu octets cannot fit a block whose capacity is %zu octets but caused %d memory accesses",
-                        (unsigned long long)octets, rawcap, D.ncalls);
+                mc_fail("C06/too-large-read-no-access", "a read of %llu octets cannot fit a %d-octet block that holds its %zu-octet descriptor (room %zu; learned receive capacity %zu) but caused %d memory accesses",
+                        (unsigned long long)octets, BLOCKSIZE, sizeof(RPFrame), physical, rawcap, D.ncalls);
             else if (r.meta != 5)
                 mc_fail("C06/too-large-read-response", "a read of %llu octets that was not executed was answered with code %u (expected transmit overflow)",
                         (unsigned long long)octets, r.meta);
@@ -503,7 +540,7 @@ family_invalid(void)
                         if (!mc_case("F %s %s%d hdcrc/plcrc-mode=%d size=%u x payload 0..8 octets x {as built, wrong checksums, version, reserved option, meta}: frames invalid by the document",
                                      tcp ? "tcp" : "serial", write ? "write" : "read", sem16 ? 16 : 8, om, S[si]))
                             continue;
-                        int judged = 0;
+                        int judged = 0, refused = 0;
                         for (size_t p = 0; p <= 8 && !mc.cur_failed; ++p)
                             for (int v = 0; v < 6 && !mc.cur_failed; ++v) {
                                 unsigned char raw[64], wire[160], pl[8];
@@ -540,15 +577,22 @@ family_invalid(void)
                                 judged++;
                                 mc_log("payload=%zu octets, %s: recv rc=%d error.id=%d process rc=%d calls=%d reply=%zu octets", p, VN[v], r.rrc, r.errid, r.prc, r.calls,
                                        D.outlen);
-                                if (r.calls != 0)
+                                /* "a frame that failed reception": the library itself said so (negative
+                                 * return, error.id, no frame).  A frame the reference calls invalid but the
+                                 * library took as valid did not fail reception: whether it may be taken is
+                                 * statement C07's sentence, not this one's. */
+                                const bool failed = r.rrc < 0 || r.errid != 0 || !r.hadframe;
+                                if (failed)
+                                    refused++;
+                                if (failed && r.calls != 0)
                                     mc_fail("C06/failed-reception-no-access",
-                                            "a %s request announcing %u words with %zu payload octets (%s) is no valid frame by doc/regp.txt but caused %d memory accesses (error.id=%d)",
-                                            write ? "write" : "read", S[si], p, VN[v], r.calls, r.errid);
+                                            "reception of a %s request announcing %u words with %zu payload octets (%s; no valid frame by doc/regp.txt) failed (rc=%d error.id=%d frame=%d) but it caused %d memory accesses",
+                                            write ? "write" : "read", S[si], p, VN[v], r.rrc, r.errid, r.hadframe, r.calls);
                                 else if (lp_bad_releases(&D))
                                     FAIL_BAD_RELEASE(&D);
                                 drv_release(&D);
                             }
-                        mc_end(judged > 0, mc.cur_failed ? "failed" : judged ? "invalid-frame-no-access" : "no-invalid-frame");
+                        mc_end(refused > 0, mc.cur_failed ? "failed" : refused ? "invalid-frame-no-access" : judged ? "invalid-frame-taken-as-valid" : "no-invalid-frame");
                     }
 }
 
@@ -702,6 +746,37 @@ equals_fresh(bool tcp, const struct item *x, const struct lp_result *r)
     return same;
 }
 
+/* the caller's "error handling" of the documented loop: install the channel again */
+static void
+reinstall_channel(struct drv *d, bool tcp)
+{
+    const int sm = srcmode_of(tcp);
+    Source src;
+    Sink snk;
+    if (sm == DRV_SRC_OCTET)
+        octet_source_init(&src, drv_src_octet, d);
+    else
+        chunk_source_init(&src, drv_src_chunk, d);
+    if (sm == DRV_SRC_CHUNK_GETBUFFER)
+        src.ext.getbuffer = drv_src_getbuffer;
+    chunk_sink_init(&snk, drv_sink_chunk, d);
+    regp_use_channel(&d->p, tcp ? RP_EP_TCP : RP_EP_SERIAL, src, snk);
+}
+
+/* did the reply octets of the round hold an acknowledgement? */
+static bool
+round_acked(bool tcp, const struct drv *d)
+{
+    unsigned char scratch[DRV_WIRE];
+    struct rr_frames fr;
+    struct rframe rp;
+    const int nfr = rr_unframe(tcp, d->out, d->outlen, scratch, &fr);
+    for (int i = 0; i < nfr; ++i)
+        if ((rr_verdict(scratch + fr.off[i], fr.len[i], &rp) & RV_OK) && (rp.type == RT_READ_RESP || rp.type == RT_WRITE_RESP) && rp.meta == 0)
+            return true;
+    return false;
+}
+
 static void
 run_session(bool tcp, const struct item *it, const int *seq, int len, int mfmode, int pool)
 {
@@ -712,6 +787,7 @@ run_session(bool tcp, const struct item *it, const int *seq, int len, int mfmode
     memset(&mf, 0, sizeof mf);
     if (mfmode == 2)
         lp_decoy(&mf, true);
+    bool chan_failed = false; /* an earlier regp_recv of the session reported a failure (negative return) */
     for (int k = 0; k < len && !mc.cur_failed; ++k) {
         const struct item *x = &it[seq[k]];
         if (mfmode == 0)
@@ -720,8 +796,44 @@ run_session(bool tcp, const struct item *it, const int *seq, int len, int mfmode
         struct lp_result r;
         lp_round(&D, &mf, &r);
         mc_trans(3);
-        mc_log("round %d %s: recv rc=%d error.id=%d process rc=%d calls=%d reply=%zu octets", k, x->name, r.rrc, r.errid, r.prc, r.calls, D.outlen);
-        if (x->kind == IK_GOOD || x->kind == IK_NONREQ) {
+        mc_log("round %d %s: recv rc=%d error.id=%d process rc=%d calls=%d reply=%zu octets, %zu of %zu source octets consumed", k, x->name, r.rrc, r.errid, r.prc, r.calls,
+               D.outlen, D.inpos, D.inlen);
+        /* The statement is about requests that were received.  It says nothing about
+         * what a channel failure that regp_recv reported (negative return: hard source
+         * error, framing violation, ...) does to the instance: one that latches the
+         * failure and refuses reception -- regp_recv < 0 without taking a single octet
+         * from the source -- until a channel is installed again is admitted, as in
+         * family G.  Then: no access, no acknowledgement; the caller's error handling
+         * installs the channel again and the same frame is offered once more. */
+        if (chan_failed && x->n > 0 && r.rrc < 0 && D.inpos == 0) {
+            if (r.calls != 0)
+                mc_fail("C06/failed-reception-no-access", "round %d (%s): reception after a reported channel failure was refused (rc=%d, no source octet taken) but caused %d memory accesses", k,
+                        x->name, r.rrc, r.calls);
+            else if (round_acked(tcp, &D))
+                mc_fail("C06/refused-not-acknowledged", "round %d (%s): reception after a reported channel failure was refused (rc=%d), nothing was executed, but an acknowledgement was sent", k,
+                        x->name, r.rrc);
+            else {
+                reinstall_channel(&D, tcp);
+                if (mfmode == 0)
+                    memset(&mf, 0, sizeof mf);
+                feed_item(&D, x);
+                lp_round(&D, &mf, &r);
+                mc_trans(3);
+                mc_log("round %d %s once more after regp_use_channel: recv rc=%d error.id=%d process rc=%d calls=%d reply=%zu octets, %zu of %zu source octets consumed", k, x->name,
+                       r.rrc, r.errid, r.prc, r.calls, D.outlen, D.inpos, D.inlen);
+            }
+        }
+        if (mc.cur_failed)
+            break;
+        const bool refused = chan_failed && x->n > 0 && r.rrc < 0 && D.inpos == 0; /* still refused after the channel was installed again */
+        if (r.rrc < 0)
+            chan_failed = true;
+        if (refused) {
+            if (r.calls != 0)
+                mc_fail("C06/failed-reception-no-access", "round %d (%s): reception was refused (rc=%d, no source octet taken) but caused %d memory accesses", k, x->name, r.rrc, r.calls);
+            else if (round_acked(tcp, &D))
+                mc_fail("C06/refused-not-acknowledged", "round %d (%s): reception was refused (rc=%d), nothing was executed, but an acknowledgement was sent", k, x->name, r.rrc);
+        } else if (x->kind == IK_GOOD || x->kind == IK_NONREQ) {
             if (!equals_fresh(tcp, x, &r))
                 mc_fail("C06/requests-independent", "round %d (%s): the exchange differs from the same exchange on a fresh instance (calls=%d, reply %zu octets)", k,
                         x->name, r.calls, D.outlen);
@@ -1029,7 +1141,7 @@ main(int argc, char **argv)
     family_invalid();
     family_sessions(th);
     family_sendfail();
-#define BOUND_REST "B: 12 verdicts x 3 reported addresses x kinds x sizes 0..3; C: every response code / meta code as input (document-conformant payloads); D: all ordered pairs of 19 frames per transport; E: reads of 24 sizes from just above what fits behind the request header (may be served up to the learned capacity, must be refused beyond it) to 2^32-1 (straddling 2^15/2^16/2^31/2^32, incl. sizes whose octet count wraps in 16 or 32 bits) x transports x memory widths x every checksum-option combination; F: invalid frames: read/write x 8/16 x transports x 5 option modes x 33 block sizes (0..4 and 2^k-1..2^k+3 for k=7,8,15,16,31, 2^32-3..2^32-1) x payload 0..8 octets x 6 variants; G: 9 reply kinds (incl. the busy and receive-overflow replies of reception) x sink failure at reply octet 0..23 x 3 error codes x transports, followed by a request on the healed channel (and, if reception is refused, once more after regp_use_channel); capacity = 160 - sizeof(RPFrame) places the windows, the oracle uses the capacity learned from the library"
+#define BOUND_REST "B: 12 verdicts x 3 reported addresses x kinds x sizes 0..3; C: every response code / meta code as input (document-conformant payloads); D: all ordered pairs of 19 frames per transport; E: reads of 24 sizes from just above what fits behind the request header (may be served up to 160 - sizeof(RPFrame) octets, must be refused beyond that) to 2^32-1 (straddling 2^15/2^16/2^31/2^32, incl. sizes whose octet count wraps in 16 or 32 bits) x transports x memory widths x every checksum-option combination; F: frames invalid by the document (no access whenever the library reports failed reception): read/write x 8/16 x transports x 5 option modes x 33 block sizes (0..4 and 2^k-1..2^k+3 for k=7,8,15,16,31, 2^32-3..2^32-1) x payload 0..8 octets x 6 variants; G: 9 reply kinds (incl. the busy and receive-overflow replies of reception) x sink failure at reply octet 0..23 x 3 error codes x transports, followed by a request on the healed channel (and, if reception is refused, once more after regp_use_channel); capacity = 160 - sizeof(RPFrame) places the windows and bounds what a read can place in a block, the band starts at the capacity learned from the library minus 16"
     mc_finish(true, th ? "A: 2 transports x read/write x 8/16-bit semantics x 8/16-bit memory x 6 addresses x every block size 0..capacity(160-octet block) x 4 contents x 4 sequence numbers; O: all 4 combinations of the checksum option bits x every block size 0..capacity (reads: up to block capacity + 3 words); S: every sequence of 2..4 receptions out of 14 (4 requests, 2 non-requests, 3 corrupted/empty frames, 3 channel failures, allocation failure, frame larger than the block) x 3 RPMaybeFrame disciplines x heap/pool allocator x transports, and every sequence of 2..3 with each of the other two source kinds (chunk, octet, chunk with getbuffer); " BOUND_REST
                        : "A: as thorough with the sequence number rotating with the address for blocks > 2; O: all 4 combinations of the checksum option bits x block sizes 0..2 and capacity-3..capacity (reads: up to block capacity + 3 words); S: every sequence of 2..3 receptions out of 14 (4 requests, 2 non-requests, 3 corrupted/empty frames, 3 channel failures, allocation failure, frame larger than the block) x 3 RPMaybeFrame disciplines x heap/pool allocator x transports; " BOUND_REST);
     return 0;
